@@ -838,6 +838,50 @@ enum Reply {
   Line(String),
   Died(String),
   Timeout,
+  /// the wall-clock cap passed but the worker did not consume its CPU budget (starved machine)
+  Stalled,
+}
+
+/// CPU seconds (user + system) consumed so far by process `pid` (Linux /proc, 100 ticks per second).
+fn cpu_seconds(pid: u32) -> Option<f64> {
+  let stat = std::fs::read_to_string(format!("/proc/{pid}/stat")).ok()?;
+  let rest = stat.rsplit_once(')')?.1;
+  let f: Vec<&str> = rest.split_whitespace().collect();
+  // after the command name: state is field 0, utime field 11, stime field 12
+  let ut: f64 = f.get(11)?.parse().ok()?;
+  let st: f64 = f.get(12)?.parse().ok()?;
+  Some((ut + st) / 100.0)
+}
+
+/// Like `ask`, but the bound is CPU time consumed by the worker, not wall-clock time: on a loaded
+/// machine a request that is merely starved is not a hang. `Timeout` = the worker burnt `cpu_budget_s`
+/// CPU seconds on this request without answering; `Stalled` = `wall_cap` passed first.
+fn ask_cpu(w: &mut Worker, line: &str, cpu_budget_s: f64, wall_cap: Duration) -> Reply {
+  let pid = w.child.id();
+  let cpu0 = cpu_seconds(pid).unwrap_or(0.0);
+  if writeln!(w.stdin, "{line}").is_err() || w.stdin.flush().is_err() {
+    let st = w.child.wait().ok();
+    return Reply::Died(format!("{st:?}"));
+  }
+  let t0 = std::time::Instant::now();
+  loop {
+    match w.rx.recv_timeout(Duration::from_millis(500)) {
+      Ok(l) => return Reply::Line(l),
+      Err(std::sync::mpsc::RecvTimeoutError::Timeout) => {
+        let used = cpu_seconds(pid).map(|c| c - cpu0).unwrap_or(0.0);
+        if used >= cpu_budget_s {
+          return Reply::Timeout;
+        }
+        if t0.elapsed() > wall_cap {
+          return Reply::Stalled;
+        }
+      }
+      Err(_) => {
+        let st = w.child.wait().ok();
+        return Reply::Died(format!("{st:?}"));
+      }
+    }
+  }
 }
 
 fn ask(w: &mut Worker, line: &str, timeout: Duration) -> Reply {
@@ -1022,10 +1066,10 @@ fn main() {
   }
   let mut ctx = Ctx::from_args("C16", "exploration", &args);
   let quick = ctx.quick();
-  ctx.rule = "requests are generated by (1) a structure-aware generator over every query/filter/sort/aggregation/highlight/collapse/rescore/suggest/fuzzy option with hostile scalars (0, usize::MAX, 1e308, subnormals, huge sizes), regex/wildcard/script/interval/cursor string corpora (incl. non-ASCII cursors at every alignment, valid hex of garbage JSON), and (2) char-level mutations of generated request JSON; a request counts only if serde_json deserialises it into SearchRequest. Each is executed by IndexReader::search in a worker process (2 GiB address-space limit) on a small 1-3 segment index with every field kind; bound 6 s (quick) / 20 s (thorough) per request, a timeout is re-run alone with a 10x bound. Builds: release-like (`verif`) and, when present, debug-assertions (`verif-dbg`). evaluations = deserialised requests executed; distinct_nontrivial = distinct executed request texts.".into();
+  ctx.rule = "requests are generated by (1) a structure-aware generator over every query/filter/sort/aggregation/highlight/collapse/rescore/suggest/fuzzy option with hostile scalars (0, usize::MAX, 1e308, subnormals, huge sizes), regex/wildcard/script/interval/cursor string corpora (incl. non-ASCII cursors at every alignment, valid hex of garbage JSON), and (2) char-level mutations of generated request JSON; a request counts only if serde_json deserialises it into SearchRequest. Each is executed by IndexReader::search in a worker process (2 GiB address-space limit) on a small 1-3 segment index with every field kind; bound 6 s (quick) / 20 s (thorough) wall-clock per request selects candidates; a candidate is re-run alone and counts as a hang only if the worker burns 10x the bound in CPU time (from /proc/<pid>/stat) on that one request without answering. Builds: release-like (`verif`) and, when present, debug-assertions (`verif-dbg`). evaluations = deserialised requests executed; distinct_nontrivial = distinct executed request texts.".into();
   ctx.assumptions = vec![
     "a request that does not deserialise is outside the property and is skipped (counted separately)".into(),
-    "hang = no reply within the bound and again within 10x the bound when re-run alone on a <= 90-document index; unreproduced timeouts and memory kills that do not reproduce are inconclusive".into(),
+    "hang = no reply within the bound and, re-run alone on a <= 90-document index, no reply after 10x the bound of CPU time consumed by the worker; a worker that does not get that CPU time within 30 min (starved machine) or a hang that consumes no CPU would be inconclusive (the search path has no locks or blocking waits)".into(),
   ];
   let exe = sandbox::self_exe();
   // debug-assertions build of the same binary, if the driver built it
@@ -1102,55 +1146,45 @@ fn main() {
             }
           }
         }
-        Reply::Timeout => {
+        Reply::Timeout | Reply::Stalled => {
           let _ = w.child.kill();
           let _ = w.child.wait();
-          let mut feat0 = feature_of(&serde_json::from_str::<Value>(&text).unwrap_or(Value::Null));
-          if feat0 != "histogram-bucket-explosion" {
-            // classification by intervention: the same request without its histogram aggregations
-            let mut stripped: Value = serde_json::from_str(&text).unwrap_or(Value::Null);
-            let had = stripped.get_mut("aggs").map(strip_histograms).unwrap_or(false);
-            if had {
-              if let Some(mut w3) = spawn_worker(&wexe, index_seed, &dir, mem) {
-                if let Reply::Line(_) = ask(&mut w3, &stripped.to_string(), Duration::from_secs(t_req * 10)) {
-                  feat0 = "histogram-bucket-explosion".to_string();
-                }
-                let _ = w3.child.kill();
-                let _ = w3.child.wait();
-              }
-            }
-          }
-          if feat0 == "histogram-bucket-explosion" {
-            // the request spans > 5e5 buckets between its bounds on a <= 90 document index: not re-run alone (listed class)
-            l.eval();
-            l.fail("hang:histogram-bucket-explosion", format!("search did not return within {t_req} s: histogram/date_histogram materialises every bucket between its (extended) bounds"), case(json!({"estimated_buckets": bucket_estimate(serde_json::from_str::<Value>(&text).unwrap_or(Value::Null).get("aggs").unwrap_or(&Value::Null))})));
-            match spawn_worker(&wexe, index_seed, &dir, mem) {
-              Some(nw) => w = nw,
-              None => return,
-            }
-            continue;
-          }
-          // re-run alone with a 10x bound
+          // A wall-clock timeout only selects a candidate. The verdict comes from re-running the request
+          // alone with a CPU-time budget of 10x the bound: a hang is a worker that burns that much CPU
+          // on one request of a <= 90-document index without answering. A starved machine gives
+          // `Stalled` (inconclusive), never a violation.
           let verdict = match spawn_worker(&wexe, index_seed, &dir, mem) {
             None => None,
             Some(mut w2) => {
-              let r = ask(&mut w2, &text, Duration::from_secs(t_req * 10));
+              let r = ask_cpu(&mut w2, &text, (t_req * 10) as f64, Duration::from_secs(1800));
               let _ = w2.child.kill();
               let _ = w2.child.wait();
               Some(r)
             }
           };
-          let feat = feature_of(&serde_json::from_str::<Value>(&text).unwrap_or(Value::Null));
+          let mut feat = feature_of(&serde_json::from_str::<Value>(&text).unwrap_or(Value::Null));
           match verdict {
             Some(Reply::Timeout) => {
               l.eval();
-              l.fail(format!("hang:{feat}"), format!("search did not return within {t_req} s nor, alone, within {} s", t_req * 10), case(json!(null)));
+              if feat != "histogram-bucket-explosion" && explosion_by_intervention(&wexe, index_seed, &dir, mem, &text, t_req * 10) {
+                feat = "histogram-bucket-explosion".to_string();
+              }
+              l.fail(format!("hang:{feat}"), format!("search did not return within {t_req} s nor, re-run alone, within {} s of CPU time", t_req * 10), case(json!(null)));
             }
             Some(Reply::Died(st)) => {
               l.eval();
+              if feat != "histogram-bucket-explosion" && explosion_by_intervention(&wexe, index_seed, &dir, mem, &text, t_req * 10) {
+                feat = "histogram-bucket-explosion".to_string();
+              }
               l.fail(format!("worker-killed:{feat}"), format!("the search killed the worker process when re-run alone ({st})"), case(json!({"status": st})));
             }
-            Some(Reply::Line(s)) => l.inconclusive(format!("request timed out at 20 s but answered `{}` alone", s.chars().take(40).collect::<String>())),
+            Some(Reply::Line(s)) => {
+              l.eval();
+              l.nontrivial(&text);
+              l.count("slow_under_load_but_answered_alone", 1);
+              let _ = s;
+            }
+            Some(Reply::Stalled) => l.inconclusive("request timed out and, re-run alone, the worker did not get its CPU budget within 30 min (starved machine)"),
             None => l.inconclusive("cannot restart worker after a timeout"),
           }
           match spawn_worker(&wexe, index_seed, &dir, mem) {
